@@ -39,7 +39,9 @@ LOCK_ASSUME = [
 def lock_stages(profile, quick_cases, thorough_cases, thorough_r10=None):
     q = [{"variant": "lock_r1", "binary": "lock_harness", "profile": profile, "cases_per_worker": quick_cases, "max_seconds": 240},
          {"variant": "lock_r1", "binary": "lock_harness", "profile": profile, "sweep": True, "extra": [], "cases_per_worker": 0, "max_seconds": 240,
-          "engine": "bounded sweep (seed independent): two-thread one-transaction programs x ALL schedules with <= 2 step-level preemptions"}]
+          "engine": "bounded sweep (seed independent): two-thread one-transaction programs x ALL schedules with <= 2 step-level preemptions"},
+         {"variant": "lock_r10", "binary": "lock_harness", "profile": profile, "cases_per_worker": max(1000, quick_cases // 5), "max_seconds": 240,
+          "engine": "same generators against the library built with the default CPP_UTILITY_SPINLOCK_RETRY_NUM=10"}]
     t = [{"variant": "lock_r1", "binary": "lock_harness", "profile": profile, "cases_per_worker": thorough_cases, "max_seconds": 1500},
          {"variant": "lock_r10", "binary": "lock_harness", "profile": profile, "cases_per_worker": thorough_r10 or thorough_cases // 2,
           "max_seconds": 1500},
@@ -68,7 +70,7 @@ RULES.update({
 THREAD_ASSUME = [
     "only sequentially consistent interleavings; scheduling points before every atomic operation and after every atomic write, thread-exit destructors run under the scheduler",
     "shared_ptr/weak_ptr control blocks and the non-atomic fields of EpochManager are not instrumented (no scheduling points inside them)",
-    "hash(thread::id) is replaced by a generated probe start; capacities are compile-time: variants 1,2,3,4,8",
+    "hash(thread::id) is replaced by a generated probe start; capacities are compile-time: variants 1-8 (quick tier: a subset)",
     "threads hold at most one epoch guard at a time; thread 0 is the only caller of ForwardGlobalEpoch",
 ]
 
@@ -138,15 +140,15 @@ PROPS = {
     "C10": {"kinds": ["GAP", "EXCLUSION-CONV"], "stages": lock_stages("C10", 8000, 60000), "assumptions": LOCK_ASSUME},
     "C11": {"kinds": ["ORDER"], "stages": lock_stages("C11", 8000, 60000), "assumptions": LOCK_ASSUME},
     "C12": {"kinds": ["LEAK", "NODE_BOUND", "STALE-NODE", "CRASH-UAF"], "stages": lock_stages("C12", 8000, 60000), "assumptions": LOCK_ASSUME},
-    "C05": {"kinds": ["IDRANGE", "IDSTABLE", "IDUNIQUE"], "stages": thread_stages("C05", [1, 2, 3, 4, 8], 350, [1, 2, 3, 4, 8], 5000),
+    "C05": {"kinds": ["IDRANGE", "IDSTABLE", "IDUNIQUE"], "stages": thread_stages("C05", [1, 2, 3, 4, 6, 8], 300, [1, 2, 3, 4, 5, 6, 7, 8], 4000),
             "assumptions": THREAD_ASSUME},
-    "C14": {"kinds": ["STUCK", "FINAL_BUSY", "ID-STARVE"], "stages": thread_stages("C14", [1, 2, 3, 4, 8], 350, [1, 2, 3, 4, 8], 5000), "assumptions": THREAD_ASSUME},
-    "C15": {"kinds": ["HB-REUSE", "HB-LIVE", "HB-EXIT"], "stages": thread_stages("C15", [2, 3, 4], 800, [1, 2, 3, 4, 8], 5000), "assumptions": THREAD_ASSUME},
-    "C04": {"kinds": ["PIN-LIST", "PIN-MIN", "GUARD-UNPINNED"], "stages": thread_stages("C04", [2, 3, 4], 500, [2, 3, 4, 8], 4000), "assumptions": THREAD_ASSUME},
+    "C14": {"kinds": ["STUCK", "FINAL_BUSY", "ID-STARVE"], "stages": thread_stages("C14", [1, 2, 3, 4, 6, 8], 300, [1, 2, 3, 4, 5, 6, 7, 8], 4000), "assumptions": THREAD_ASSUME},
+    "C15": {"kinds": ["HB-REUSE", "HB-LIVE", "HB-EXIT"], "stages": thread_stages("C15", [2, 3, 4], 800, [1, 2, 3, 4, 5, 6, 7, 8], 4000), "assumptions": THREAD_ASSUME},
+    "C04": {"kinds": ["PIN-LIST", "PIN-MIN", "GUARD-UNPINNED"], "stages": thread_stages("C04", [2, 3, 5], 500, [2, 3, 4, 5, 6, 7, 8], 3000), "assumptions": THREAD_ASSUME},
     "C16": {"kinds": ["FWD-BLOCKED", "EPOCH-STEP", "CUR-DECREASED", "MIN-GT-CUR", "QUIESCENT-LIST", "QUIESCENT-MIN"],
-            "stages": thread_stages("C16", [2, 3, 4], 500, [2, 3, 4, 8], 4000), "assumptions": THREAD_ASSUME},
+            "stages": thread_stages("C16", [2, 3, 5], 500, [2, 3, 4, 5, 6, 7, 8], 3000), "assumptions": THREAD_ASSUME},
     "C17": {"kinds": ["LIST-OWNER", "LIST-ORDER", "LIST-PREV", "LIST-STABLE", "GUARD-EPOCH", "GUARD-MOVE", "CRASH-UAF", "CRASH"],
-            "stages": thread_stages("C17", [2, 3, 4], 500, [2, 3, 4, 8], 4000), "assumptions": THREAD_ASSUME},
+            "stages": thread_stages("C17", [2, 3, 5], 500, [2, 3, 4, 5, 6, 7, 8], 3000), "assumptions": THREAD_ASSUME},
     "C06": {"kinds": ["ZIPF-EXCEPTION", "ZIPF-RANGE", "ZIPF-INVCDF", "ZIPF-INVCDF-SEAM", "ZIPF-DEFAULT", "CRASH"], "stages": zipf_stages("C06", 100000, 600000),
             "native_shrink": True, "assumptions": ZIPF_ASSUME},
     "C18": {"kinds": ["ZIPF-EXCEPTION", "ZIPF-CDF-VALUE", "ZIPF-CDF-MONOTONE", "ZIPF-CDF-LAST", "ZIPF-APPROX-EXACT", "ZIPF-APPROX-CLOSE", "ZIPF-APPROX-CLOSE-TAIL",
